@@ -4,6 +4,7 @@ Decided as TERM IDENTITY for all inputs: the real controller runs on a symbolic 
 if their result terms and all statistics values are structurally identical z3 terms (same operations in the same order).  If they are
 not, the solver is asked whether they are at least equal over the reals ("equal up to rounding", reported separately)."""
 import json
+import os
 
 import numpy as np
 import z3
@@ -77,6 +78,9 @@ def tasks(tier, seed):
             T.append((sc, json.dumps(c, sort_keys=True)))
         if len(c['M']) > 1:
             T.append(('shared', json.dumps(c, sort_keys=True)))
+    base_ = dict(dt=0.25, prob='dahlquist', n=1, qd='LU', sweeper='generic_implicit', maxiter=2, restol=-1.0, blocks=2)
+    for c in (dict(base_, M=[3, 2], NP=1), dict(base_, M=[3, 2, 2], NP=2, predict='fine_only'), dict(base_, M=[3], NP=2, jac=False), dict(base_, sweeper='imex_1st_order', M=[3, 2], NP=1)):
+        T.append(('isolation', json.dumps(c, sort_keys=True)))
     T.append(('float', json.dumps(cfgs(tier)[1], sort_keys=True)))
     T.append(('float', json.dumps(cfgs(tier)[5], sort_keys=True)))
     return T
@@ -87,6 +91,8 @@ def run_task(rep, task):
     cfg = json.loads(task[1])
     if task[0] == 'float':
         float_case(rep, cfg)
+    elif task[0] == 'isolation':
+        isolation_case(rep, cfg)
     else:
         scenario_case(rep, task[0], cfg)
 
@@ -245,6 +251,38 @@ def scenario_case(rep, scenario, cfg):
     rep.sample({'case': name, 'paths': len(paths), 'pairs_compared': sum(len(p.result) for p in paths)}, limit=8)
 
 
+def isolation_case(rep, cfg):
+    """two controllers living in one process do not influence each other, judged against a run in a process of its own: the configuration is run alone in a
+    fresh interpreter and, in another fresh interpreter, after two differently configured controllers with the SAME sizes (other quadrature type, node
+    type, preconditioner, step size); end value and statistics must agree exactly (real float classes; concrete, ENUMERATED)"""
+    import subprocess
+    import sys as _sys
+
+    from harness.c01 import cname
+
+    name = f'isolation/{cname(cfg)}'
+    env = dict(os.environ, PYTHONPATH=os.pathsep.join([os.path.dirname(os.path.dirname(os.path.abspath(__file__))), os.environ.get('VERIF_REPO', '/repo')]), PYTHONDONTWRITEBYTECODE='1', PYTHONHASHSEED='0')
+    outs = {}
+    for mode in ('alone', 'after-other'):
+        pr = subprocess.run([_sys.executable, '-m', 'harness.c19_iso', json.dumps(cfg), mode], capture_output=True, text=True, env=env, timeout=600)
+        lines = [l for l in pr.stdout.strip().splitlines() if l.strip()]
+        if pr.returncode != 0 or not lines:
+            rep.error(f'{name}: helper process failed ({mode}): {pr.stderr[-400:]}')
+            return
+        outs[mode] = (lines[-1], [l for l in lines[:-1] if l.startswith('OTHER-FAILED')])
+    rep.translator += 2
+    if outs['after-other'][1]:
+        rep.note(f'{name}: {outs["after-other"][1]}')
+    same = outs['alone'][0] == outs['after-other'][0]
+    if not same:
+        a, b = json.loads(outs['alone'][0]), json.loads(outs['after-other'][0])
+        rep.replayed += 1
+        rep.violation(f'{PID}/process-isolation/{"ml" if len(cfg["M"]) > 1 else "sl"}', f'{name}: run alone in a fresh process gives {a[0]}, after differently configured controllers with the same sizes {b[0]}; statistics digests {"equal" if a[1] == b[1] else "differ"}',
+                      {'task': ['isolation'], 'cfg': cfg, 'alone': a, 'after_other': b})
+    else:
+        rep.side(f'{name}:same-as-alone', True)
+
+
 def float_runs(scenario, cfg, x=0.7321):
     """the same scenario on the real float classes: returns list of (uend_a, uend_b) arrays"""
     total = cfg['NP'] * cfg.get('blocks', 1)
@@ -327,6 +365,15 @@ def replay(path):
 
     logging.disable(logging.CRITICAL)
     d = json.load(open(path))['replay']
+    if d['task'][0] == 'isolation':
+        from symx.report import Report
+
+        r = Report(PID, 'other', 'quick', 0)
+        isolation_case(r, d['cfg'])
+        bad = bool(r.violations)
+        print(r.violations[0]['what'] if bad else 'same result alone and after other controllers')
+        print('REPRODUCED' if bad else 'not reproduced')
+        return 1 if bad else 0
     pairs = float_runs(d['task'][0], d['cfg'])
     bad = any(not np.array_equal(a, b) for a, b in pairs)
     print([(a.tolist(), b.tolist()) for a, b in pairs])
